@@ -161,6 +161,28 @@ func drawC05(t *rapid.T) c05Case {
 		// policies with an injected defect: normally rejected, but whatever is accepted must still be a valid filter
 		p = drawC07(t).Policy
 	}
+	if rapid.IntRange(0, 9).Draw(t, "stripConditions") == 0 {
+		// conditional entries that carry no condition (nil or empty list): whether such a policy is accepted is not
+		// settled by C07, but whatever is accepted must be a valid filter. All of them, or every other one.
+		all := rapid.Bool().Draw(t, "stripAll")
+		empty := rapid.Bool().Draw(t, "emptyNotNil")
+		if p.Groups != nil {
+			p.Groups = append([]spec.Group(nil), p.Groups...)
+		}
+		k := 0
+		for gi := range p.Groups {
+			p.Groups[gi].Conds = append([]spec.CondEntry(nil), p.Groups[gi].Conds...)
+			for ei := range p.Groups[gi].Conds {
+				if all || k%2 == 0 {
+					p.Groups[gi].Conds[ei].Conds = nil
+					if empty {
+						p.Groups[gi].Conds[ei].Conds = []spec.Cond{}
+					}
+				}
+				k++
+			}
+		}
+	}
 	c := c05Case{Policy: p, Seed: rapid.Uint64().Draw(t, "seed"),
 		Order: []string{"native", "native", "little", "big"}[rapid.IntRange(0, 3).Draw(t, "order")]}
 	if rapid.IntRange(0, 5).Draw(t, "reuseValue") == 0 {
@@ -315,7 +337,22 @@ func checkC05(raw json.RawMessage) (ev.Result, error) {
 		}
 	}
 	res.Classes = append(res.Classes, st.list()...)
-	res.NonTrivial = st.anyGroupEmpty || n > 255 || st.hasArgLoads
+	withConds, withoutConds := 0, 0
+	for _, g := range p.Groups {
+		for _, ce := range g.Conds {
+			if len(ce.Conds) == 0 {
+				withoutConds++
+			} else {
+				withConds++
+			}
+		}
+	}
+	if withoutConds > 0 && withConds == 0 {
+		res.Classes = append(res.Classes, "accepted:conditional-entries-none-of-which-carries-a-condition")
+	} else if withoutConds > 0 {
+		res.Classes = append(res.Classes, "accepted:some-conditional-entries-without-conditions")
+	}
+	res.NonTrivial = st.anyGroupEmpty || n > 255 || st.hasArgLoads || withoutConds > 0
 	return res, nil
 }
 
